@@ -99,6 +99,84 @@ CLAIMS['C13'] = {
     'technique': 'wire-grammar abstraction of sibling implementations (write/read/length) over MIR + forward dataflow',
 }
 
+CLAIMS['C03'] = {
+    'text': 'Per-operation invariants the histories rely on: the identifier of a new attribute must derive from a monotone '
+            'allocation cell and never from a container cardinality or maximum (today it derives from the number of live '
+            'attributes: genuine defect, reported as KNOWN-FINDING K1 by exact key); Attribute.id has only constructor / '
+            'deserialisation writers; rename stores exactly the removed value and Dict::update_key touches only the key half; '
+            'disable_attribute writes write_status only and nothing rewrites encryption_hint; update_msk retains before '
+            'inserting and the API wrappers pass access_structure.omega(). Partial: outcomes over edit histories not decided.',
+    'note': TB + 'Known finding K1 (identifier reuse after deletion) is listed in known_findings.json, not repaired (needs a wire-format change).',
+    'technique': 'provenance slicing of the allocated identifier + who-may-write enumeration + identity-form provenance',
+}
+CLAIMS['C08'] = {
+    'text': 'verify(msk, usk)? dominates every other call and every write of refresh; verify recomputes sign over the key\'s own '
+            'id / secrets, compares the whole Option<[u8;32]> and accepts only on the equal edge; the KMAC transcript covers '
+            'markers, rights and every secret of both flavours in order and is keyed by the signing key; injectivity of the MAC '
+            'encoding (counts / lengths / variant tags) is checked item by item — five unframed items are a genuine defect '
+            'reported as KNOWN-FINDING K2 by exact keys, any new unframed input is a new violation; key representations are private.',
+    'note': TB + 'Assumes KMAC256 unforgeability. K2 is not repaired because re-framing invalidates every issued signature.',
+    'technique': 'MIR dominance + may-write analysis + hash-transcript coverage and injectivity classification',
+}
+CLAIMS['C09'] = {
+    'text': 'Frozen contract table of 26 (function, Error variant, minimum sites) rows plus 14 reachability rows: every documented '
+            'failure still has its error site on the path of its operation; no Result carrying a crate error is discarded or '
+            'turned into a default; the only calls whose Err can leave refresh are verify, refresh_id and sign. Partial: the '
+            '"succeeds otherwise" direction and exactness of guard conditions are not decided.',
+    'note': TB + 'The contract table was frozen from the documented behaviour after reading the code.',
+    'technique': 'call-graph reachability of error sites + error-discipline audit (unused / swallowed Results) over MIR',
+}
+CLAIMS['C11'] = {
+    'text': 'Exact truth tables (finite-domain evaluation of the MIR) of EncryptionHint::bitor / new / bool::from and of '
+            'is_hybridized; cpk, drop_hybridization and RightSecretKey::random preserve / choose the variant as required; combine '
+            'ORs the hint of every appended component from a Classic seed; the hybridize flag of new secrets is `Hybridized == hint` '
+            '(update) or is_hybridized() of the newest secret (rekey); downgrade only under Classic == hint; select_subkeys clears '
+            'its all-hybridized flag only under !is_hybridized(); encaps dispatches on it; HEncs / CEncs built only by the matching side.',
+    'note': TB + 'Assumes derived PartialEq on field-less enums compares discriminants.',
+    'technique': 'finite-domain abstract evaluation + MIR dominance + provenance slicing',
+}
+CLAIMS['C12'] = {
+    'text': 'Key-derivation labels agree between the two directions of the PKE and of the header and the two header labels differ; '
+            'ciphertexts are framed nonce || body with the nonce actually used and split at the same constant; every slice of '
+            'untrusted ciphertext is dominated by a length check and the Option returned by decapsulation is only mapped / '
+            'transposed; the caller\'s authentication_data is the associated data on both sides. Partial: round-trip equality and '
+            'AEAD behaviour are not decided.',
+    'note': TB + 'Assumes AES-256-GCM and the KDFs of cosmian_crypto_core behave as specified.',
+    'technique': 'sibling agreement of constants and framing by provenance + panic-site audit with length-guard dominance',
+}
+CLAIMS['C15'] = {
+    'text': 'Totality of the parser only: every str range index in AccessPolicy::parse, its helpers and QualifiedAttribute::try_from '
+            'has char-boundary-safe provenance (0, byte length of a collected prefix, char_indices offset, offset + len_utf8 of that '
+            'char); no other undischarged panic site is reachable from parse / try_from / to_dnf. Logical faithfulness is declined.',
+    'note': TB + 'Precedence, DNF equivalence and name preservation are not decided (only a frozen-shape proxy would be available).',
+    'technique': 'provenance classification of str slice bounds + panic-site audit over the resolved call graph',
+}
+CLAIMS['C16'] = {
+    'text': 'Freshness as provenance from the instance CSPRNG on every call: every AEAD nonce comes from Nonce::new on the parameter / '
+            'instance RNG in the same invocation; the encapsulated seed is Secret::random(rng) with scalar, traps and ML-KEM '
+            'randomness derived from it / the RNG; id markers and right secrets are drawn from the RNG; every stored master secret is '
+            'fresh or deserialised; every RNG hand-off passes the caller\'s own RNG; instances seed from entropy and nothing seeds '
+            'deterministically; metadata-key and returned-secret labels differ.',
+    'note': TB + 'Uniqueness itself rests on the CSPRNG assumption (ChaCha seeded from OS entropy).',
+    'technique': 'identity-form provenance of RNG references and random values over MIR',
+}
+CLAIMS['C17'] = {
+    'text': 'Every Ok(id) of generate_user_id is dominated by add_user of the same id; usk_keygen / refresh take ids only from '
+            'generate_user_id / refresh_id; refresh_id fails on the unknown edge before any mutation, returns the caller\'s or a fresh '
+            'id and removes only the old one; exact writers of TracingSecretKey.users; user-key and public-key tracing points are the '
+            '.1 projection of the same tracers list and all set_traps multiply them by the scalar. The algebraic relation is declined.',
+    'note': TB + 'sum(a_i t_i) = s and distinctness of ids are arithmetic over runtime scalars, not decided.',
+    'technique': 'MIR dominance + identity-form provenance + who-may-write + sibling agreement of projections',
+}
+CLAIMS['C19'] = {
+    'text': 'The schedule quantifier is discharged by a state audit (single Mutex field, no statics, no other interior mutability in '
+            'any ADT field, all API methods on &self) plus a lock analysis over the resolved call graph: at each of the 11+ acquisition '
+            'sites of Covercrypt.rng no call in the guard\'s live range (up to its Drop) acquires the lock again, directly, through a '
+            'crate callee, a generic dispatch or a closure; no indirect call runs under the lock; only Covercrypt::rng returns a guard.',
+    'note': TB + 'Assumes std::sync::Mutex is not re-entrant; poisoning behaviour is not decided.',
+    'technique': 'lock-graph / guard live-range analysis over MIR + type-level state audit',
+}
+
 NOT_APPLICABLE = {}
 
 NOTES = ('Static analysis only: every check compiles the current working tree of /repo under a rustc_private driver, exports '
